@@ -440,9 +440,14 @@ COMP_TARGETS = {
     'st-para': ['include <abstractions/base>', '', '@{exec_path} mr,', '', '/etc/st-para.a r,', '', '#aa:only verif-no-such-target', '/etc/st-para.guarded r,', '/etc/st-para.guarded2 r,', '',
                 '/etc/st-para.b r,', '', '/etc/st-para.c r,'],
 }
+# a file with a second top-level profile after the one that carries the file's name (as shipped: atril, man)
+COMP_TWO = ('st-two', 'abi <abi/4.0>,\n\ninclude <tunables/global>\n\n@{exec_path} = @{bin}/st-two\nprofile st-two @{exec_path} {\n  include <abstractions/base>\n\n  @{exec_path} mr,\n\n  /etc/st-two r,\n\n'
+            '  include if exists <local/st-two>\n}\n\nprofile st-two-helper @{bin}/st-two-helper {\n  include <abstractions/base>\n\n  /etc/st-two-helper r,\n\n  include if exists <local/st-two-helper>\n}\n')
 COMP_TARGETS['st-exec-dir'] = ['include <abstractions/base>', '', '@{exec_path} mr,', '', '/etc/st-exec-dir r,', '', '#aa:exec gen-t1']
 # what must / must not be in the output whenever the line is in the host (independent of the real code)
-COMP_EXPECT = {'stack-exec-dir': (['/etc/st-exec-dir r,'], ['/{,usr/}{,s}bin/gen-t1 Px,']),       # a stack without X adds no exec transition
+COMP_EXPECT = {'stack-two': (['/etc/st-two r,', 'include if exists <local/host>'], ['/etc/st-two-helper r,', 'profile st-two-helper @{bin}/st-two-helper {']),
+               'stack-ovw': (['/etc/st-ovw r,'], []), 'exec-ovw': (['/{,usr/}{,s}bin/st-ovw Px,'], []),
+               'stack-exec-dir': (['/etc/st-exec-dir r,'], ['/{,usr/}{,s}bin/gen-t1 Px,']),       # a stack without X adds no exec transition
                'stack-para': (['/etc/st-para.a r,', '/etc/st-para.b r,', '/etc/st-para.c r,', 'include if exists <local/st-para>'], ['/etc/st-para.guarded r,', '/etc/st-para.guarded2 r,'])}
 COMP_LINES = {
     'stack-dir': '  #aa:stack st-dir',
@@ -450,6 +455,9 @@ COMP_LINES = {
     'stack-chain': '  #aa:stack st-chain',
     'stack-para': '  #aa:stack st-para',
     'stack-exec-dir': '  #aa:stack st-exec-dir',
+    'stack-two': '  #aa:stack st-two',
+    'stack-ovw': '  #aa:stack st-ovw',
+    'exec-ovw': '  #aa:exec st-ovw',
     'dbus': '  #aa:dbus own bus=session name=org.example.Host',
     'exec': '  #aa:exec gen-t1',
     'only': '  /etc/host.only r, #aa:only arch',
@@ -498,6 +506,9 @@ def composition_part(rn, tier, ev, fnd):
     for n, body in TARGETS.items():
         rn.add(n, target_text(n, body))
     rn.add('gen-t1-bis', rn.read('gen-t1').replace('gen-t1', 'gen-t1-bis'))
+    rn.add(COMP_TWO[0], COMP_TWO[1])
+    # a target the overwrite step renamed (ABI 4): the file is <name>.apparmor.d, the directive says <name>
+    rn.add('st-ovw.apparmor.d' if rn.cfg.abi == 4 else 'st-ovw', target_text('st-ovw', ['include <abstractions/base>', '', '@{exec_path} mr,', '', '/etc/st-ovw r,']))
     tags = list(COMP_LINES)
     L = 4 if tier == 'thorough' else 3
     allseqs = [list(s) for n in range(1, L + 1) for s in itertools.permutations(tags, n)]
@@ -507,9 +518,16 @@ def composition_part(rn, tier, ev, fnd):
     # lines of Run(host with lines s) are the lines of the bare host plus, for each line t of s, what Run adds for t alone
     from collections import Counter
     base = rn.run([comp_host([])] + [comp_host([t]) for t in tags])
+    broken = set()
     for t, r in zip(['<bare host>'] + tags, base):
         if r.get('err') or r.get('panic'):
+            if t in COMP_EXPECT:
+                # the directive itself fails on a target it is expected to handle: a violation, not a harness problem
+                fnd.report('composition-directive-fails line=%s' % t, 'host with the single line `%s` fails: %s' % (COMP_LINES[t].strip(), r.get('err') or r.get('panic')), {'text': comp_host([t])})
+                broken.add(t); r['out'] = comp_host([])
+                continue
             raise SystemExit('HARNESS ERROR: single-line composition host %s fails: %s' % (t, r.get('err') or r.get('panic')))
+    allseqs = [s for s in allseqs if not (set(s) & broken)]
     fixed = Counter(l.strip() for l in base[0]['out'].split('\n') if l.strip())
     own = {t: Counter(l.strip() for l in r['out'].split('\n') if l.strip()) - fixed for t, r in zip(tags, base[1:])}
     allres = rn.run([comp_host(s) for s in allseqs])
@@ -523,8 +541,9 @@ def composition_part(rn, tier, ev, fnd):
             lost = [l for l in must if l not in got]
             kept = [l for l in mustnot if l in got and not (t == 'stack-exec-dir' and 'exec' in s)]     # the host's own `#aa:exec gen-t1` yields that line legitimately
             if lost or kept:
-                fnd.report('composition-%s lost=%d kept=%d' % ('guarded-paragraph-in-stacked-profile' if t == 'stack-para' else 'exec-directive-in-stacked-profile', bool(lost), bool(kept)),
-                           '%s: %s: expected lines %s are lost, lines that must not be there %s are' % (where, 'a guarded paragraph inside the stacked profile' if t == 'stack-para' else 'an exec directive inside a profile stacked without X', lost, kept),
+                what = {'stack-para': 'guarded-paragraph-in-stacked-profile', 'stack-exec-dir': 'exec-directive-in-stacked-profile', 'stack-two': 'stacked-file-with-two-profiles'}.get(t, 'target-renamed-by-overwrite')
+                fnd.report('composition-%s lost=%d kept=%d' % (what, bool(lost), bool(kept)),
+                           '%s: %s: expected lines %s are lost, lines that must not be there %s are' % (where, what, lost, kept),
                            {'text': comp_host(s), 'out': r['out']})
         if any(t in COMP_EXPECT for t in s):
             continue            # judged by the explicit expectation above (the sum would only repeat a finding of it)
